@@ -98,6 +98,7 @@ type Result struct {
 	VirtualMs     int64          `json:"virtual_ms"`
 	Partial       bool           `json:"partial,omitempty"`
 	Trace         *Trace         `json:"trace,omitempty"`
+	YieldResume   *yrRow         `json:"yield_resume,omitempty"`
 }
 
 type itemState int
@@ -267,6 +268,7 @@ type runner struct {
 	lastStalled     time.Duration // last instant at which some session was stalled
 	orcLog          []string
 	partial         func(*Result)
+	yr              *yrRow
 }
 
 func (r *runner) now() time.Duration { return time.Since(r.t0) }
@@ -348,7 +350,7 @@ func (r *runner) result(partial bool) *Result {
 	defer r.mu.Unlock()
 	res := &Result{ID: r.h.ID, Prop: r.h.Prop, Hash: r.h.contentHash(), Pass: len(r.fails) == 0,
 		Failures: append([]Failure{}, r.fails...), Nontrivial: r.nontrivial, ExceptionUsed: r.excUsed,
-		StalledFull: len(r.fullEver), OpsByKind: r.opsByKind, Skipped: r.skipped, Partial: partial}
+		StalledFull: len(r.fullEver), OpsByKind: r.opsByKind, Skipped: r.skipped, Partial: partial, YieldResume: r.yr}
 	for w := range r.why {
 		res.Why = append(res.Why, w)
 	}
@@ -413,6 +415,15 @@ func helloDetails() wamp.Dict {
 		"publisher": wamp.Dict{}, "subscriber": wamp.Dict{}, "caller": wamp.Dict{}, "callee": wamp.Dict{}}}
 }
 
+// helloDetailsFeat also announces progressive call results and call canceling.
+func helloDetailsFeat() wamp.Dict {
+	f := func() wamp.Dict {
+		return wamp.Dict{"features": wamp.Dict{"progressive_call_results": true, "call_canceling": true}}
+	}
+	return wamp.Dict{"roles": wamp.Dict{
+		"publisher": wamp.Dict{}, "subscriber": wamp.Dict{}, "caller": f(), "callee": f()}}
+}
+
 func (r *runner) realmConfig(uri string) *router.RealmConfig {
 	return &router.RealmConfig{RequireLocalAuth: r.h.LocalAuth, URI: wamp.URI(uri), AnonymousAuth: true, AllowDisclose: true, EnableMetaKill: true,
 		Authorizer: r.hold, RequireLocalAuthz: true, PublishFilterFactory: r.hold.filterFactory}
@@ -458,7 +469,11 @@ func (r *runner) newSessionAuth(spec SessionSpec, transient bool, gate chan stru
 	r.mu.Unlock()
 	go s.readLoop()
 	go s.sendLoop()
-	hello := s.push(&outItem{msg: &wamp.Hello{Realm: wamp.URI(spec.Realm), Details: helloDetails()}, desc: "HELLO", gate: gate})
+	hd := helloDetails()
+	if spec.Feat {
+		hd = helloDetailsFeat()
+	}
+	hello := s.push(&outItem{msg: &wamp.Hello{Realm: wamp.URI(spec.Realm), Details: hd}, desc: "HELLO", gate: gate})
 	e.item = hello
 	if transient {
 		s.expGone = "hello_goodbye"
@@ -709,6 +724,9 @@ func (s *sess) handle(m wamp.Message) {
 		satisfy(m.Request)
 	case *wamp.Result:
 		satisfy(m.Request)
+		if p, _ := m.Details["progress"].(bool); p {
+			rec.Info = "progress"
+		}
 	case *wamp.Error:
 		satisfy(m.Request)
 		rec.Info = string(m.Error)
